@@ -71,6 +71,9 @@ SolveResult minimize(auto && f, auto && x, auto && cb, const MinimizeOptions & o
   const auto t0                             = std::chrono::high_resolution_clock::now();
   auto iter                                 = 0u;
 
+  // trust region of a strategy object used before must not leak into this problem
+  opts.strat->reset();
+
   // execute callback on initial value
   std::apply(cb, x);
 
